@@ -542,6 +542,8 @@ class Program:
                 if ret is not None and not re.search(ret, f.ret):
                     continue
                 out.append(f)
+        if len(out) > 1 and len({(f.name, tuple(f.args)) for f in out}) == 1:
+            out = out[:1]          # `const fn`: runtime MIR + MIR for CTFE
         if len(out) != 1:
             raise LookupError(f'{file}::{name} (nargs={nargs}, arg0={arg0}, ret={ret}): {len(out)} candidates {[x.name for x in out][:5]}')
         return out[0]
